@@ -343,7 +343,7 @@ Definition sr_run (c : cfg) (progs : nat -> list api) (sched : list (nat * oracl
 (* ---- enabledness: can the thread make a step that is not idle spinning / blocked waiting? ----
    A worker in its polling cycle is enabled iff the cycle can change the shared state:
      own_work   its own pending/staged queue is not empty (popped / converted whatever `running` is);
-     can_sleep  it has been told to sleep and get_queue_length(w) == 0;
+     can_sleep  it is not running any more (told to sleep) and get_queue_length(w) == 0 (can_exit);
      run_work   it is running (or still believes so: [stale]) and there is something a running worker may take:
                 pending/staged tasks of other workers (stealing only), pending low-priority tasks, staged low-priority tasks
                 (LAST worker only). *)
@@ -354,7 +354,8 @@ Definition steal_s (c : cfg) (g : gst) : bool := stealing c && has_normal c (sq 
 Definition low_p (c : cfg) (g : gst) : bool := nonempty (qof (lowq c) (qs g)).
 Definition low_s (c : cfg) (w : nat) (g : gst) : bool := lastw c w && nonempty (qof (lowq c) (sq g)).
 Definition run_work (c : cfg) (w : nat) (g : gst) : bool := steal_p c g || steal_s c g || low_p c g || low_s c w g.
-Definition can_sleep (c : cfg) (w : nat) (g : gst) : bool := rs_eqb (st g w) g_sleep_if && negb (nonempty (qlen_tasks c w g)).
+(* can_exit of the next iteration: !running && get_queue_length(w) == 0 *)
+Definition can_sleep (c : cfg) (w : nat) (g : gst) : bool := negb (rs_lt (st g w) g_running_below) && negb (nonempty (qlen_tasks c w g)).
 
 (* what the rest of the current iteration can still do on the strength of an old `running = true` / `can_exit = true` *)
 Definition stale (c : cfg) (w : nat) (g : gst) (pc : wpc) : bool :=
@@ -363,7 +364,7 @@ Definition stale (c : cfg) (w : nat) (g : gst) (pc : wpc) : bool :=
   | WLowPop => steal_s c g || low_p c g || low_s c w g
   | WAdd true | WAddSteal => steal_s c g || low_s c w g
   | WAddLow => low_s c w g
-  | WIdle false => negb (nonempty (qlen_tasks c w g))
+  | WPop false | WAdd false | WIdle false => negb (nonempty (qlen_tasks c w g))   (* leads to the ghost reset of [fresh] *)
   | WCheck true => rs_eqb (st g w) g_sleep_if
   | _ => false
   end.
